@@ -51,6 +51,7 @@ type SpaceKeeper struct {
 
 func (sk *SpaceKeeper) OnStart() error {
 	sk.quit = make(chan struct{})
+	sk.wg.Add(1) // before the goroutine starts, so that a Stop right after Start waits for it
 	go sk.spacePlotter()
 	go sk.fileWatcher()
 	logging.CPrint(logging.INFO, "spaceKeeper started")
